@@ -22,12 +22,40 @@ def _entries(chk):
     return ents
 
 
+def static_only_const(chk):
+    """The C formatter must emit `static` exactly for const arrays: a non-const array with static storage
+    would be mutable state shared between calls and threads (any size, any rank, any scalar type)."""
+    import ffcx.codegeneration.lnodes as L
+    from ffcx.codegeneration.C.formatter import Formatter
+    for st in ("float64", "float32", "complex128"):
+        f = Formatter(st)
+        for shape in ((1,), (7,), (64,), (65,), (125,), (1000,), (20000,), (30, 40), (5, 5, 5, 9)):
+            for dt in (L.DataType.SCALAR, L.DataType.REAL):
+                sym = L.Symbol("temp_0", dt)
+                for const in (False, True):
+                    for vals in ([0], None) if not const else (np.zeros(shape),):
+                        if vals is None:
+                            txt = f(L.ArrayDecl(sym, sizes=shape))
+                        else:
+                            txt = f(L.ArrayDecl(sym, sizes=shape, values=vals, const=const))
+                        chk.case("static_only_const", f"{st}:{shape}:{const}")
+                        has_static = "static" in txt.split("=")[0]
+                        if has_static != const:
+                            chk.violation("impure:static-nonconst-array" if has_static else "impure:const-array-not-static",
+                                          f"ArrayDecl(const={const}, shape={shape}) is formatted as `{txt.split('=')[0].strip()[:60]}`",
+                                          {"scalar_type": st, "shape": list(shape), "const": const, "text": txt[:120]})
+
+
 def certificates(chk, d, ents):
     """pureKernel on every kernel AST (with and without the optimiser)."""
     from .c17 import _NoOpt
-    for e in ents:
+    from .c10 import tp_entries
+    tps = {e.name for e in tp_entries()}
+    for e in list(ents) + [t for t in tp_entries() if t.name.endswith(("_1", "_2"))]:
         variants = []
         try:
+            if e.name in tps:
+                variants.append(("sumfact", kernels.cases_for_entry(e, pipeline.default_options(sum_factorization=True))[0]))
             variants.append(("opt", kernels.cases_for_entry(e)[0]))
             with _NoOpt():
                 variants.append(("noopt", kernels.cases_for_entry(e)[0]))
@@ -131,6 +159,7 @@ def run(chk):
     chk.assumptions += ["a C call starts with fresh automatic variables; static tables are const (formatter emits `static const` iff const=True: checked by C16's formatter correspondence)"]
     chk.lean("FfcxProofs.C07", THEOREMS)
     ents = _entries(chk)
+    static_only_const(chk)
     with lean.Driver("driver") as d:
         certificates(chk, d, ents)
     n = len(ents) if chk.tier == "thorough" else 14
